@@ -1451,4 +1451,24 @@ theorem tameP_spec {env : List Entry} {l out : List PTok} (h : TameP env l out) 
             simpa [List.getD, hla'] using this
 
 
+/-! ## `WFMacroP`, decided -/
+
+theorem wfMacroP_of_wfPB (m : Macro) (h : wfPB m = true) : WFMacroP m := by
+  unfold wfPB at h
+  rw [List.all_eq_true] at h
+  refine ⟨?_, ?_, ?_⟩
+  · intro t ht hh
+    have := h t ht
+    simp [hh] at this
+  · intro t ht s hs i hi
+    have := h t ht
+    simp only [hs, bne_iff_ne, ne_eq] at this
+    apply this
+    rw [hi, paramName_head]
+  · intro t ht i hi
+    have := h t ht
+    simp only [hi, Bool.and_eq_true, decide_eq_true_eq] at this
+    exact this
+
+
 end RsslVerif.Lemmas.MacroTamePSpec
